@@ -38,7 +38,7 @@ def shards(tier, seed):
             out.append({"kind": "store_api", "cfg": cfg, "part": k, "n": 20 if tier == "quick" else 80})
     out.append({"kind": "registration"})
     for cfg in ("memory", "file"):
-        out.append({"kind": "remote_store", "cfg": cfg, "n": 15 if tier == "quick" else 80})
+        out.append({"kind": "remote_store", "cfg": cfg, "n": 30 if tier == "quick" else 120})
     return out
 
 
@@ -562,6 +562,18 @@ def part_remote_store(cx):
                 if rb[0] == "ok" and ra != rb:
                     cx.viol("RemoteStore.%s differs from the store" % kind, "key %r: store %r, remote %r" % (k, rb, ra), w)
                     return
+                # the client's own view (no stale answers) ...
+                for kk in STORE_KEYS:
+                    for probe in ("is_dir", "contains"):
+                        try:
+                            ra2, rb2 = bool(getattr(remote, probe)(kk)), bool(getattr(twin, probe)(kk))
+                        except Exception:
+                            continue
+                        if ra2 != rb2:
+                            cx.viol("RemoteStore.%s answers differently from the store afterwards" % probe,
+                                    "%s after %r: %s(%r) remote %r store %r" % (cfg, op[:2], probe, kk, ra2, rb2), w)
+                            return
+                # ... and the effect on the served store
                 a, b = store_view(served), store_view(twin)
                 if a != b:
                     diff = [x for x in a if a[x] != b.get(x)]
